@@ -112,6 +112,26 @@ def cancelled_mid_open(engine, rng, n):
     return out
 
 
+def overlap_cancel(engine, rng, n):
+    """two requests overlap: A is still opening its processor when B arrives and is staged behind it; then A's caller
+    gives up (its own deadline).  B is a request of its own: it is applied (or fails to open) and its caller is told so -
+    A's caller giving up must not take B's request away"""
+    out = []
+    for i in range(n):
+        where = rng.choice(["pipeline", "s1", "d1"])
+        fail_b = i % 3 == 2
+        p = P("p1", where, 1, {}, open_delay_gen="2", open_delay_ms=rng.choice([400, 700]), open_err_gen="3" if fail_b else "")
+        steps = [{"do": "Emit", "src": "s1"}, {"do": "Reconfigure", "proc": "p1", "tag": "2", "ms": rng.choice([150, 250]), "n": 1},   # n = 1: do not wait for the outcome
+                 {"do": "Sleep", "ms": rng.choice([30, 80])},
+                 {"do": "Reconfigure", "proc": "p1", "tag": "3", "ms": 0},
+                 {"do": "AwaitCalls", "ms": 6000}, {"do": "Emit", "src": "s1"}, {"do": "Settle"},
+                 {"do": "Emit", "src": "s1"}, {"do": "Settle"}]
+        sc = dpgen.scenario("%s-rcov-%03d" % (engine, i), engine, [S("s1", 4, [1] * 4)], [D("d1", gated=False)], [p], 0, 0, steps)
+        sc["features"] = sorted(set(dpgen.features_of(sc)) | {"reconf", "reconf-overlap-cancel"})
+        out.append(sc)
+    return out
+
+
 def slow_open(engine, n):
     """the new processor takes longer to open than any internal patience (12 s): whatever the caller is told, it has to
     be true - 'applied' only if that configuration is in force afterwards, an error only if it never handles a record"""
@@ -163,6 +183,7 @@ def run(tier, seed):
     chk.run(at_startup(rng, 6 if quick else 60), name="reconf-startup")
     chk.run(cancelled_mid_open("v1", rng, 6 if quick else 40), name="reconf-cancel")
     chk.run(slow_open("v1", 3 if quick else 12), name="reconf-slow-open")
+    chk.run(overlap_cancel("v1", rng, 6 if quick else 40), name="reconf-overlap-cancel")
     chk.validate()
     return chk.finish(nontrivial,
                       "a reconfigure request (one, two in a row, one whose open fails, one whose caller gives up after "
